@@ -149,6 +149,56 @@ CHECKS = {
             "14 feature sets; images are consistent and byte-reproducible; extraction returns the same data.",
             "Host tree on tmpfs; route B limited to what debugfs can express; tar route compares no xattrs/holes.",
             "DESIGN.md section 2, C18"),
+    "C07": ("exploration",
+            "runtime monitoring of mke2fs over a seeded covering sample (pairwise, then random) of its option "
+            "lattice x boundary device sizes: e2fsck -fn, the independent checker, an independent parse of the "
+            "resulting geometry/features/backups (pyext4 + own geometry arithmetic), byte hashes for -n and for "
+            "repeated identical runs",
+            "For every accepted configuration sampled (block/cluster/inode size, -i/-N, features, journal size, "
+            "sizes at one-group / tiny-last-group / descriptor-block / meta_bg boundaries, -g, -G, resize=, RAID, "
+            "offset, packed_meta_blocks, num_backup_sb, -d trees): e2fsck -fn exits 0, the independent checker is "
+            "silent, parsed geometry and features equal the request, backups are exactly where prescribed and "
+            "agree; mke2fs -n writes nothing; identical runs are byte-identical.",
+            "Refused configurations carry no claim; sparse files up to 64 GB, no real block devices; the reserved "
+            "block share is compared although the statement names it only implicitly (-m is part of the request).",
+            "DESIGN.md section 2, C07"),
+    "C10": ("exploration",
+            "model-based runtime monitoring: debugfs namespace histories generated from a Python namespace model "
+            "(legal commands and expected failures), interleaved with e2fsck -fyD/-fy; after every chunk the "
+            "independent reader's listing, link counts, inode/block accounting, htree hash ranges (own hash "
+            "functions) and e2fsck -fn are compared with the model",
+            "For 300-3000-command histories on linear, htree (1-2 levels; 3 in thorough) and inline-data "
+            "directories at 1k/4k blocks with/without metadata_csum, filetype, dir_nlink: every directory lists "
+            "exactly the model's names with the right inode type, identity and link count, expected failures "
+            "fail, removed objects release inode and blocks, hash ranges are ordered, the filesystem is "
+            "consistent after every chunk.",
+            "Names exclude NUL, '/', LF, CR; debugfs ln/unlink are paired with sif links_count as their design "
+            "requires; casefold/encrypted directories cannot be created here.",
+            "DESIGN.md section 2, C10"),
+    "C11": ("exploration",
+            "model-based runtime monitoring of tune2fs sequences: independent superblock parse/diff against a "
+            "settings model, independent tree digest before/after, the follow-up e2fsck exactly when tune2fs "
+            "asks for it, then e2fsck -fn and the independent checker",
+            "For sequences of 1-8 tune2fs invocations (feature toggles incl. metadata_csum/uninit_bg/journal/quota/"
+            "project/extent/csum_seed/mmp/ea_inode/orphan_file, -U, -I, -J, -Q, -e/-c/-C/-i, -L/-M, -m/-r, -E, -o; "
+            "forced orders such as csum off -> UUID -> csum on) on populated images built by the tree: each "
+            "accepted run changes exactly the requested setting, keeps every file, and leaves (after the "
+            "requested e2fsck, if any) a consistent filesystem; refusals change nothing.",
+            "Unmounted filesystems only; acceptance is taken from the exit status, the model only predicts side "
+            "effects that the option implies.",
+            "DESIGN.md section 2, C11"),
+    "C15": ("exploration",
+            "model-based runtime monitoring: random histories of ext2fs_xattr_* calls (C driver, no oracle inside; "
+            "plain and ASan builds) and debugfs ea_* commands judged against a Python dict model, with an "
+            "independent parse of inode body / xattr block / EA inodes (order, hashes, refcounts, leaks) and "
+            "e2fsck -fn + independent checker after every close",
+            "For 30-120-operation histories over all name prefixes, name lengths 1-255, values 0 bytes to 64 KiB, "
+            "inode sizes 128-1024, +-ea_inode, +-metadata_csum, 1k/4k blocks, shared xattr blocks (refcount 2) and "
+            "inline-data files: every get/list equals the model, entries are in kernel order with correct "
+            "hashes and refcounts, no block or EA inode is leaked or freed twice, the filesystem stays consistent.",
+            "A refusal (no space) near the placement limit is accepted either way; POSIX ACL names use well-formed "
+            "ACLs or raw mode; ASan red zones only.",
+            "DESIGN.md section 2, C15"),
     "C01": ("exploration",
             "runtime monitoring of the two-pass protocol (e2fsck -fy, then e2fsck -fn) over a finite, "
             "enumerable universe of structured corruptions of committed corpus images; the oracle is the "
